@@ -94,6 +94,11 @@ func (cp ConstantPacer) Rate(elapsed time.Duration) float64 {
 // hitsPerNs returns the attack rate this ConstantPacer represents, in
 // fractional hits per nanosecond.
 func (cp ConstantPacer) hitsPerNs() float64 {
+	if cp.Freq == 0 {
+		// No hits, whatever the time unit: the zero value (0 hits per 0ns)
+		// must not come out as NaN, e.g. for a SinePacer without an Amp.
+		return 0
+	}
 	return float64(cp.Freq) / float64(cp.Per)
 }
 
